@@ -77,6 +77,10 @@ def pipe_task(task):
             k, d = pipeline(src, w, s, u, l)
             res['n'] += 1
             res['kinds'][k] = res['kinds'].get(k, 0) + 1
+            if k == 'escape' and task.get('huge') and 'Exceeds the limit' in d and 'ValueError' in d:
+                # known finding (known_findings.json): any other outcome of these sources, or this outcome on any other source, is reported
+                res['violations'].append(dict(what='an internal exception escapes the compiler: ' + d, finding_key='huge-radix-literal-str-limit', case=src[:60] + '...'))
+                continue
             if k in ('escape', 'bad-diagnostic', 'bad-assembly'):
                 res['violations'].append(dict(what={'escape': 'an internal exception escapes the compiler: ', 'bad-diagnostic': 'the diagnostic is not located/renderable: ',
                                                     'bad-assembly': 'the emitted assembly is not accepted by the assembler: '}[k] + d,
@@ -298,6 +302,16 @@ def main():
     srcs = interface_sources()
     cfgs = [(2, 64, False, False), (3, 64, True, False)] if quick else [(2, 64, False, False), (3, 64, True, False), (4, 30, False, True), (8, 64, True, True)]
     tasks = [dict(name='iface-%d' % i, srcs=srcs[i::32], cfgs=cfgs) for i in range(32)]
+    # absurdly long literals: the lexer must answer with a diagnostic (two repaired defects: a decimal literal beyond int()'s digit
+    # limit, a \\u{...} escape beyond chr()'s range); huge literals in the other radixes are the known finding huge-radix-literal-str-limit
+    Pm = 'empty @is_you() { %s }\n'
+    long_srcs = [Pm % ('int x = ' + '9' * n + '; sleep(x);') for n in (4300, 4301, 5000, 20000)] + ['int g = ' + '9' * 5000 + ';\n' + Pm % 'sleep(g);', Pm % ('sleep(1_' + '0' * 6000 + ');'),
+                                                                                                 Pm % "write('\\u{FFFFFFFFFFFFFFFFFFFFFFFF}');", Pm % 'write("\\u{110000}\\u{FFFFFFFFF}");',
+                                                                                                 Pm % "write('\\u{7FFFFFFF}'); write('\\u{80000000}');"]
+    tasks.append(dict(name='long-literals', srcs=long_srcs))
+    huge_srcs = [Pm % ('int x = 0x' + 'f' * 6000 + '; sleep(x);'), Pm % ('int x = 0b' + '1' * 20000 + '; sleep(x);'), Pm % ('int x = 0o' + '7' * 8000 + '; sleep(x);'),
+                 'int g = 0x' + 'f' * 6000 + ';\n' + Pm % 'sleep(g);', Pm % ('int a[0x' + 'f' * 6000 + '];')]
+    tasks.append(dict(name='huge-radix-literals', srcs=huge_srcs, huge=True))
     rnd = random_sources(rep.seed, 1500 if quick else 20000)
     tasks += [dict(name='random-%d' % i, srcs=rnd[i::16]) for i in range(16)]
     for r in pmap(pipe_task, tasks, limit=1200):
